@@ -34,6 +34,7 @@ type Exec struct {
 	// type-invariant facts about values loaded while evaluating spec expressions
 	// (slice lengths are non-negative, references are allocated, ...); flushed into
 	// the path condition by the next assert/assume
+	pureMemo  map[string]Val
 	pending   []string
 	qsyms     []string // symbols of quantifier variables currently in scope
 }
@@ -41,6 +42,7 @@ type Exec struct {
 type Options struct {
 	InlineDepth int
 	Unroll      int
+	Thorough    bool
 }
 
 type Closure struct {
